@@ -42,6 +42,6 @@ i=s.index('| id | status | what decides it')
 j=s.index('### 0a.2 What changed relative to the plan')
 s=s[:i]+hdr+"\n".join(rows)+"\n\n"+s[j:]
 import re
-s=re.sub(r'independent seeded changes of the \w+ rounds kept','independent seeded changes of the nine rounds kept',s)
+s=re.sub(r'independent seeded changes of the \w+ rounds kept','independent seeded changes of the ten rounds kept',s)
 open(p,'w').write(s)
 print("\n".join(r[:90] for r in rows))
